@@ -23,6 +23,7 @@ func vComputeEnd(k int)     {}
 func vGotDo(g, k int, v any)  {}             // goroutine g's Do(k) returned v
 func vGotGet(g, k int, v any) {}             // goroutine g's Get(k) returned v (nil allowed)
 func vYield()               {}               // a scheduling point inside f
+func vNilResult(k int) bool { return false } // the function for key k returns nil (solver's choice)
 
 // ---- C09: par.Work ----
 
@@ -79,5 +80,8 @@ func vCompute(k int) any {
 	inv := vComputeBegin(k)
 	vYield()
 	vComputeEnd(k)
+	if vNilResult(k) {
+		return nil // a legitimate result: "computed, and the value is nil"
+	}
 	return k*8 + inv
 }
